@@ -236,6 +236,74 @@ pub fn run(thorough: bool, seed: u64, _replay: Option<String>) -> Report {
             rep.sample(format!("history new({})+{} appends -> {}", nfirst, n - nfirst, real));
         }
     }
+    // ---- (3b) payloads above TOO_BIG_SEQUENCE: no merging, but still re-sorted on every insertion
+    let n_big = if thorough { 12 } else { 3 };
+    for k in 0..n_big {
+        let n = rng.range(2, 6);
+        let nfirst = if k % 2 == 0 { 0 } else { rng.range(0, n) };
+        let sup = supported();
+        let mut items = vec![];
+        for i in 0..n {
+            let c = (n - i) as f32 * 0.03 + if rng.chance(1, 3) { 0.0 } else { 0.001 };
+            let h = rng.below(1000) as f32 / 1000.0;
+            items.push((sup[(i + 7) % sup.len()].to_string(), c, h, "same text".to_string(), 1_000_001usize));
+        }
+        let build = |it: &(String, f32, f32, String, usize)| {
+            let coh: Vec<(&'static charset_normalizer_rs::entity::Language, f32)> = vec![(english(), it.2)];
+            vh::new_match(vec![0u8; it.4], &it.0, it.1, false, &coh, Some(&it.3))
+        };
+        let mut c = CharsetMatches::new(Some(items[..nfirst].iter().map(build).collect()));
+        for it in &items[nfirst..] {
+            c.append(build(it));
+        }
+        let real = c
+            .iter()
+            .map(|m| format!("{}[{}]", m.encoding(), m.submatch().iter().map(|s| s.encoding().to_string()).collect::<Vec<_>>().join(",")))
+            .collect::<Vec<_>>()
+            .join(" ");
+        let req = format!(
+            "container 1000000 {} {}",
+            nfirst,
+            items.iter().map(|it| format!("{}|{}|{}|{}|{}", it.0, fbits(it.1), fbits(it.2), text_hex(&it.3), it.4)).collect::<Vec<_>>().join(" ")
+        );
+        let model = drv.ask(&req);
+        rep.evaluations += 1;
+        rep.t3_compared += 1;
+        rep.nontrivial(fp(req.as_bytes(), "container-big"));
+        rep.count("container:payload>1MB");
+        if model.trim_end() != format!("ok {}", real).trim_end() {
+            rep.fail("t3", "C08:container-model-disagrees", &format!("(payload > 1 MB) real: {} || model: {}", real, model), req.as_bytes(), None, "container-big");
+        }
+        check_order(&mut rep, &c, "container-history-big-payload", req.as_bytes(), None);
+    }
+    // ---- (3c) a real >1 MB legacy single-byte input (30+ matches, no merging): oracle on the implementation
+    {
+        let base = TEXTS.iter().find(|(n, _)| *n == "russian").unwrap().1;
+        let unit = enc_bytes(base, "windows-1251").unwrap();
+        let mut b: Vec<u8> = Vec::with_capacity(1_100_000);
+        while b.len() < 1_050_000 {
+            b.extend_from_slice(&unit);
+            b.push(b' ');
+        }
+        let s = Sett::default();
+        if let Ok(Ok(ms)) = real_detect_raw(&b, &s) {
+            rep.evaluations += 1;
+            rep.count("detection:>1MB");
+            check_order(&mut rep, &ms, "detection-large", &b, Some(&s));
+            if thorough {
+                let model = model_detect(&mut drv, &b, &s);
+                rep.t3_compared += 1;
+                let order = |o: &Outcome| match o {
+                    Outcome::Ok(v) => v.iter().map(|m| m.enc.clone()).collect::<Vec<_>>().join(" "),
+                    other => other.show(),
+                };
+                let real = Outcome::Ok(canon_matches(&ms));
+                if order(&real) != order(&model.outcome) {
+                    rep.fail("t3", "C08:detection-order-model-disagrees", &format!("real: {} || model: {}", order(&real), order(&model.outcome)), &b, Some(&s), "large");
+                }
+            }
+        }
+    }
     // ---- (4) result lists detection really produces (incl. > 20 matches: threshold 1, many code pages)
     let corpus = corpus(60_000);
     let n_det = if thorough { 600 } else { 60 };
